@@ -120,6 +120,7 @@ func (v jv) sexp(sortLists bool, key string) sexp.Node {
 type side struct {
 	schema   *graphql.Schema
 	api      *apifu.API // when set, requests go through API.ServeGraphQL instead
+	ws       *wsSession // when set, through a graphql-ws connection to API.ServeGraphQLWS
 	features graphql.FeatureSet
 	log      *calls
 }
@@ -181,6 +182,9 @@ func (o *observation) readResponse(b []byte) {
 }
 
 func (s *side) run(query string, vars map[string]interface{}) *observation {
+	if s.ws != nil {
+		return s.runWS(query, vars)
+	}
 	if s.api != nil {
 		return s.runHTTP(query, vars)
 	}
@@ -189,9 +193,9 @@ func (s *side) run(query string, vars map[string]interface{}) *observation {
 	for _, e := range verrs {
 		o.verrs = append(o.verrs, locsOf(e.Locations))
 	}
-	s.log.log = nil
+	s.log.take()
 	resp := graphql.Execute(&graphql.Request{Context: context.Background(), Query: query, Schema: s.schema, Features: s.features, VariableValues: vars})
-	o.calls = s.log.log
+	o.calls = s.log.take()
 	b, err := json.Marshal(resp)
 	if err != nil {
 		panic(fmt.Sprintf("response does not marshal: %v", err))
